@@ -56,7 +56,7 @@ var tsKeys = map[string]string{"ts-default": "default", "ts-alt": "alt", "ts-alt
 var tsaCert = map[string]*x509.Certificate{}
 
 func TestMain(m *testing.M) {
-	rec.Rule("cases = mixes of 4-64 requests (sign with drawn key incl. keys behind a latency-injecting token, signature type in {ps, pe-coff, jar, pgp, msi}, digest, body; list-keys; key-info; health) issued by 2-32 concurrent clients over real TLS to the daemon (race detector on, GOMAXPROCS drawn from {2, 4, 16}, token cache expiry 1 s, optional token rate limit), optionally with daemon shutdown while one request is parked inside the token; oracle = every response equals the isolated verdict: the returned signature applied to that request's own body verifies, is made with that request's key and digest; listings and key-info equal the configuration; no data race report; audit record count = successful signs; audit file appended to by 2-32 goroutines at once (records below and above 4 KiB) holds every record exactly once, one JSON object per line; the parked request completes with a valid signature, new connections are refused after shutdown; non-trivial = mix with >= 2 overlapping signs that differ in key, type or body; distinct = rendering of the mix")
+	rec.Rule("cases = mixes of 4-64 requests (sign with drawn key incl. keys behind a latency-injecting token, signature type in {ps, pe-coff, jar, pgp, msi, apk}, digest, body; list-keys; key-info; health) issued by 2-32 concurrent clients over real TLS to the daemon (race detector on, GOMAXPROCS drawn from {2, 4, 16}, token cache expiry 1 s, optional token rate limit), optionally with daemon shutdown while one request is parked inside the token; oracle = every response equals the isolated verdict: the returned signature applied to that request's own body verifies, is made with that request's key and digest; listings and key-info equal the configuration; no data race report; audit record count = successful signs; audit file appended to by 2-32 goroutines at once (records below and above 4 KiB) holds every record exactly once, one JSON object per line; the parked request completes with a valid signature, new connections are refused after shutdown; non-trivial = mix with >= 2 overlapping signs that differ in key, type or body; distinct = rendering of the mix")
 	rec.Assume("the Go scheduler is not owned by the harness: interleavings are explored by repetition under the race detector, not enumerated")
 	if cfgPath := os.Getenv("VERIF_C14_DAEMON"); cfgPath != "" {
 		daemonChild(cfgPath)
@@ -123,7 +123,7 @@ type reqSpec struct {
 	Body    int    `json:"body,omitempty"`
 }
 
-var signTypes = []string{"ps", "pe", "jar", "pgp", "msi"}
+var signTypes = []string{"ps", "pe", "jar", "pgp", "msi", "apk"}
 
 func genBody(t *rapid.T, format string) *arts.Artifact {
 	arts.APKBigMembers = false
@@ -196,6 +196,10 @@ func TestC14_Mixes(t *testing.T) {
 				if s.SigType == "pgp" {
 					// (the time-stamped keys have no PGP certificate)
 					s.Key = rapid.SampledFrom([]string{"rsa2048a", "rsa3072", "rec-rsa"}).Draw(t, "pgpkey")
+					s.Hash = rapid.SampledFrom([]string{"SHA-256", "SHA-512"}).Draw(t, "hash")
+				} else if s.SigType == "apk" {
+					// (APK signing blocks carry no time-stamp; the scheme knows two digests)
+					s.Key = rapid.SampledFrom(append(append([]string{}, pipe.SigningKeys...), recKeys...)).Draw(t, "apkkey")
 					s.Hash = rapid.SampledFrom([]string{"SHA-256", "SHA-512"}).Draw(t, "hash")
 				} else {
 					s.Hash = rapid.SampledFrom([]string{"SHA-256", "SHA-384", "SHA-512"}).Draw(t, "hash")
